@@ -118,7 +118,7 @@ def new_system(subject):
     elif subject == "CPCCA":
         s["model"] = xe.cross.CPCCA(n_modes=2, alpha=0.5, use_pca=True, n_pca_modes=3, random_state=3)
     elif subject in ("MCA", "MCA+Rotator"):
-        s["model"] = xe.cross.MCA(n_modes=2, use_pca=False, random_state=3)
+        s["model"] = xe.cross.MCA(n_modes=2, use_pca=True, n_pca_modes="all", random_state=3)
     if subject == "EOF+Rotator":
         s["rot"] = xe.single.EOFRotator(n_modes=2, power=1)
     if subject == "MCA+Rotator":
